@@ -746,4 +746,237 @@ theorem toIR_unique {S : SchemaView} {q : Query} {ir : IRQuery} (h : toIR S q = 
     exact isInterval_of_count c.eids c.elen
 
 
+/-! ### clause 7: variables -/
+
+theorem levelsOk_refl (l : List Bool) : QTy.levelsOk l l = true := by
+  induction l with
+  | nil => rfl
+  | cons a l ih => cases a <;> simp [QTy.levelsOk, ih]
+
+theorem levelsOk_trans {a b c : List Bool} (h1 : QTy.levelsOk a b = true)
+    (h2 : QTy.levelsOk b c = true) : QTy.levelsOk a c = true := by
+  induction a generalizing b c with
+  | nil => cases b <;> cases c <;> simp_all [QTy.levelsOk]
+  | cons x a ih =>
+    cases b with
+    | nil => simp [QTy.levelsOk] at h1
+    | cons y b =>
+      cases c with
+      | nil => simp [QTy.levelsOk] at h2
+      | cons z c =>
+        simp only [QTy.levelsOk, Bool.and_eq_true] at h1 h2 ⊢
+        refine ⟨?_, ih h1.2 h2.2⟩
+        cases x <;> cases y <;> cases z <;> simp_all
+
+theorem levelsOk_and_left {a b : List Bool} (h : a.length = b.length) :
+    QTy.levelsOk a (List.zipWith (· && ·) a b) = true := by
+  induction a generalizing b with
+  | nil => cases b <;> simp_all [QTy.levelsOk]
+  | cons x a ih =>
+    cases b with
+    | nil => simp at h
+    | cons y b =>
+      simp only [List.zipWith_cons_cons, QTy.levelsOk, Bool.and_eq_true]
+      exact ⟨by cases x <;> cases y <;> rfl, ih (by simpa using h)⟩
+
+theorem levelsOk_and_right {a b : List Bool} (h : a.length = b.length) :
+    QTy.levelsOk b (List.zipWith (· && ·) a b) = true := by
+  induction a generalizing b with
+  | nil => cases b <;> simp_all [QTy.levelsOk]
+  | cons x a ih =>
+    cases b with
+    | nil => simp at h
+    | cons y b =>
+      simp only [List.zipWith_cons_cons, QTy.levelsOk, Bool.and_eq_true]
+      exact ⟨by cases x <;> cases y <;> rfl, ih (by simpa using h)⟩
+
+theorem subtype_refl (t : QTy) : t.isScalarOnlySubtype t = true := by
+  simp [QTy.isScalarOnlySubtype, levelsOk_refl]
+
+theorem subtype_trans {a b c : QTy} (h1 : a.isScalarOnlySubtype b = true)
+    (h2 : b.isScalarOnlySubtype c = true) : a.isScalarOnlySubtype c = true := by
+  simp only [QTy.isScalarOnlySubtype, Bool.and_eq_true, beq_iff_eq] at h1 h2 ⊢
+  exact ⟨h1.1.trans h2.1, levelsOk_trans h1.2 h2.2⟩
+
+/-- `intersect` yields a scalar-only subtype of both operands. -/
+theorem intersect_subtype {a b i : QTy} (h : a.intersect b = some i) :
+    a.isScalarOnlySubtype i = true ∧ b.isScalarOnlySubtype i = true := by
+  unfold QTy.intersect at h
+  split at h
+  · rename_i he
+    simp only [QTy.eqIgnoringNullability, Bool.and_eq_true, beq_iff_eq] at he
+    simp only [Option.some.injEq] at h
+    subst h
+    simp only [QTy.isScalarOnlySubtype, Bool.and_eq_true, beq_iff_eq]
+    exact ⟨⟨trivial, levelsOk_and_left he.2⟩, ⟨he.1.symm, levelsOk_and_right he.2⟩⟩
+  · simp at h
+
+/-- the query-level type recorded for `n` is compatible with a use at type `t` -/
+def varOk (vars : List (Name × QTy)) (u : Name × QTy) : Bool :=
+  match vars.find? (·.1 == u.1) with
+  | some (_, q) => u.2.isScalarOnlySubtype q
+  | none => false
+
+theorem find_updateVar_self {n : Name} {i : QTy} {vars : List (Name × QTy)} {u : Name × QTy}
+    (h : vars.find? (·.1 == n) = some u) :
+    ∃ m, (updateVar n i vars).find? (·.1 == n) = some (m, i) := by
+  induction vars with
+  | nil => simp at h
+  | cons x rest ih =>
+    obtain ⟨m, w⟩ := x
+    simp only [updateVar]
+    by_cases hm : (m == n) = true
+    · simp [hm]
+    · have hm' : (m == n) = false := by simpa using hm
+      simp only [hm', List.find?_cons] at h
+      simp only [hm', Bool.false_eq_true, if_false, List.find?_cons]
+      exact ih h
+
+theorem find_updateVar_other {n k : Name} {i : QTy} {vars : List (Name × QTy)} (hk : (k == n) = false) :
+    (updateVar n i vars).find? (·.1 == k) = vars.find? (·.1 == k) := by
+  induction vars with
+  | nil => rfl
+  | cons x rest ih =>
+    obtain ⟨m, w⟩ := x
+    simp only [updateVar]
+    by_cases hm : (m == n) = true
+    · have hmn : m = n := by simpa using hm
+      have : (m == k) = false := by
+        rw [hmn]
+        cases hnk : (n == k)
+        · rfl
+        · have : n = k := by simpa using hnk
+          rw [this] at hk; simp at hk
+      simp [hm, this]
+    · simp only [hm, Bool.false_eq_true, if_false, List.find?_cons]
+      split
+      · rfl
+      · exact ih
+
+theorem find_insertVar_self {n : Name} {t : QTy} {vars : List (Name × QTy)}
+    (h : vars.find? (·.1 == n) = none) :
+    (insertVar n t vars).find? (·.1 == n) = some (n, t) := by
+  induction vars with
+  | nil => simp [insertVar]
+  | cons x rest ih =>
+    obtain ⟨m, w⟩ := x
+    simp only [List.find?_cons] at h
+    split at h
+    · simp at h
+    · rename_i hm
+      simp only [insertVar]
+      split
+      · simp
+      · simp only [List.find?_cons, hm]
+        exact ih h
+
+theorem find_insertVar_other {n k : Name} {t : QTy} {vars : List (Name × QTy)} (hk : (n == k) = false) :
+    (insertVar n t vars).find? (·.1 == k) = vars.find? (·.1 == k) := by
+  induction vars with
+  | nil => simp [insertVar, hk]
+  | cons x rest ih =>
+    obtain ⟨m, w⟩ := x
+    simp only [insertVar]
+    split
+    · simp [List.find?_cons, hk]
+    · simp only [List.find?_cons]
+      split
+      · rfl
+      · exact ih
+
+/-- One step keeps every earlier use compatible and makes the new use compatible. -/
+theorem addVar_ok {vars vars' : List (Name × QTy)} {n : Name} {t : QTy}
+    (h : addVar vars n t = .ok vars') :
+    varOk vars' (n, t) = true ∧ ∀ u, varOk vars u = true → varOk vars' u = true := by
+  unfold addVar at h
+  split at h
+  · rename_i m q hf
+    split at h
+    · rename_i i hi
+      simp only [Except.ok.injEq] at h
+      subst h
+      obtain ⟨s1, s2⟩ := intersect_subtype hi
+      constructor
+      · obtain ⟨m', hm'⟩ := find_updateVar_self (i := i) hf
+        simp [varOk, hm', s2]
+      · intro u hu
+        by_cases hk : (u.1 == n) = true
+        · have hun : u.1 = n := by simpa using hk
+          obtain ⟨m', hm'⟩ := find_updateVar_self (i := i) hf
+          simp only [varOk, hun, hf] at hu
+          simp only [varOk, hun, hm']
+          exact subtype_trans hu s1
+        · have hk' : (u.1 == n) = false := by simpa using hk
+          simp only [varOk, find_updateVar_other hk'] at hu ⊢
+          exact hu
+    · simp at h
+  · rename_i hf
+    simp only [Except.ok.injEq] at h
+    subst h
+    constructor
+    · simp [varOk, find_insertVar_self hf, subtype_refl]
+    · intro u hu
+      by_cases hk : (n == u.1) = true
+      · have hun : n = u.1 := by simpa using hk
+        simp [varOk, ← hun, hf] at hu
+      · have hk' : (n == u.1) = false := by simpa using hk
+        simp only [varOk, find_insertVar_other hk'] at hu ⊢
+        exact hu
+
+theorem addVars_ok {uses vars vars' : List (Name × QTy)} (h : addVars vars uses = .ok vars') :
+    (∀ u, varOk vars u = true → varOk vars' u = true) ∧ ∀ u ∈ uses, varOk vars' u = true := by
+  induction uses generalizing vars with
+  | nil => simp [addVars] at h; subst h; simp
+  | cons x rest ih =>
+    obtain ⟨n, t⟩ := x
+    rw [addVars] at h
+    simp only [bind_ok] at h
+    obtain ⟨vars1, h1, h2⟩ := h
+    obtain ⟨a1, a2⟩ := addVar_ok h1
+    obtain ⟨b1, b2⟩ := ih h2
+    refine ⟨fun u hu => b1 u (a2 u hu), ?_⟩
+    intro u hu
+    simp only [List.mem_cons] at hu
+    rcases hu with rfl | hu
+    · exact b1 _ a1
+    · exact b2 u hu
+
+theorem varsOk_iff (vars : List (Name × QTy)) (fs : List IRFilter) :
+    varsOk vars fs = (fs.flatMap filterVarUse).all (varOk vars) := by
+  unfold varsOk
+  congr 1
+
+
+theorem wfVars_of_uses (vars : List (Name × QTy)) :
+    (∀ c, (∀ u ∈ varUses c, varOk vars u = true) → wfVarsC vars c = true) ∧
+    (∀ fs, (∀ u ∈ postVarUses fs, varOk vars u = true) →
+      (∀ u ∈ foldsVarUses fs, varOk vars u = true) → wfVarsF vars fs = true) := by
+  apply wfVarsC.mutual_induct
+  · intro root vs es fs os ih h
+    simp only [varUses, List.mem_append] at h
+    simp only [wfVarsC, Bool.and_eq_true, List.all_eq_true]
+    refine ⟨?_, ih (fun u hu => h u (Or.inl (Or.inr hu))) (fun u hu => h u (Or.inr hu))⟩
+    intro v hv
+    rw [varsOk_iff, List.all_eq_true]
+    intro u hu
+    apply h u
+    refine Or.inl (Or.inl ?_)
+    simp only [List.mem_flatMap]
+    exact ⟨v, hv, List.mem_flatMap.mp hu⟩
+  · intro _ _; rfl
+  · intro e f t n ps c imports fouts post rest ihc ihr h1 h2
+    simp only [postVarUses, foldsVarUses, List.mem_append] at h1 h2
+    simp only [wfVarsF, Bool.and_eq_true]
+    refine ⟨⟨?_, ihc (fun u hu => h2 u (Or.inl hu))⟩,
+      ihr (fun u hu => h1 u (Or.inr hu)) (fun u hu => h2 u (Or.inr hu))⟩
+    rw [varsOk_iff, List.all_eq_true]
+    exact fun u hu => h1 u (Or.inl hu)
+
+/-- clause 7 -/
+theorem toIR_vars {S : SchemaView} {q : Query} {ir : IRQuery} (h : toIR S q = .ok ir) :
+    wfVarsC ir.variables ir.rootComponent = true := by
+  obtain ⟨root, rootParams, acc, st1, comp, evs, st2, vars, _, _, _, _, h5, _, _, rfl⟩ := toIR_inv h
+  exact (wfVars_of_uses vars).1 comp (addVars_ok h5).2
+
+
 end TF.Frontend
